@@ -55,6 +55,7 @@ pub fn main(args: &[String]) -> i32 {
                 Some("payload") => crate::epayload::worker_main(),
                 Some("crash") => crate::ecrash::worker_main(),
                 Some("fault") => crate::efault::worker_main(),
+                Some("sched") => crate::esched::worker_main(),
                 other => eprintln!("unknown worker kind {other:?}"),
             }
             0
@@ -76,6 +77,7 @@ fn run_check(id: &str, tier: &str, replay: Option<&str>) -> i32 {
         "C06" => c06_check(tier, replay),
         "C04" => c04_check(tier, replay),
         "C05" => c05_check(tier, replay),
+        "C03" => c03_check(tier, replay),
         _ => {
             eprintln!("no check for property {id}");
             2
@@ -449,6 +451,11 @@ fn seq_check(id: &str, tier: &str, replay: Option<&str>) -> i32 {
     rep.cov("samples", json!(samples));
     rep.cov("exhaustive", json!(exhaustive));
     rep.cov("distinct_outcome_classes", json!(outcome_classes.into_iter().collect::<Vec<_>>()));
+    if id == "C11" {
+        // the concurrent half: AddSnapshot overlapping GetSnapshot / AddVersion / AddSnapshot
+        let quick = tier != "thorough";
+        run_sched(&mut rep, "C11", &c11_scenarios(tier), if quick { 2 } else { 3 }, if quick { 1500 } else { 60000 }, false);
+    }
     rep.cov("explanation", json!("every state and transition counted is an execution of the real Server / actix handler / storage code; the reference model is compared on each one"));
     rep.assume("bounded depth and alphabet as listed under coverage.runs; states with equal canonical model state are merged after their stored state was compared with the model");
     rep.assume("random version ids enter only through equality (renamed to symbols)");
@@ -461,6 +468,19 @@ fn seq_replay(id: &str, tier: &str, file: &str, runs: &[(String, SeqParams)]) ->
         return 2;
     };
     let v: Value = serde_json::from_str(&s).unwrap_or(Value::Null);
+    if v["replay"]["engine"] == "esched" {
+        let mut pool = crate::pool::Pool::spawn(1, "sched", &json!({"seed": seed()}));
+        let r = pool.map(&[json!({"scenario": v["replay"]["scenario"], "replay": v["replay"]["choices"]})]);
+        if let Some(Ok(res)) = r.first() {
+            if res["ok"] == false {
+                println!("VIOLATION property={id} replay={file}");
+                println!("  {}", res["msg"].as_str().unwrap_or(""));
+                return 1;
+            }
+        }
+        println!("replay of {file}: no violation of {id}");
+        return 0;
+    }
     let rp = &v["replay"];
     let run = rp["run"].as_str().unwrap_or("");
     let hist: Vec<AOp> = rp["history"]
@@ -968,5 +988,224 @@ fn c05_check(tier: &str, replay: Option<&str>) -> i32 {
     rep.cov("exhaustive", json!(true));
     rep.assume("only faults that report failure are injected (error return codes); silent corruption or short reads are not storage failures the code can be expected to detect");
     rep.assume("persistent (SQLite) backend only, as the property states; an absent client and an existing client with no versions and no snapshot are the same stored state");
+    rep.finish()
+}
+
+// ---------------------------------------------------------------------------------------------
+// C03: schedules
+
+pub fn c03_scenarios(tier: &str) -> Vec<crate::esched::Scenario> {
+    use crate::esched::{Backend, RKind, Scenario};
+    let quick = tier != "thorough";
+    let kinds = RKind::all();
+    let mut out = vec![];
+    let backends = [Backend::Mem, Backend::SqlShared, Backend::SqlPerThread];
+    for init in ["unknown", "empty", "chain2+snapshot"] {
+        for http in [false, true] {
+            if init == "unknown" && !http {
+                continue; // the library never creates clients: every answer is NoSuchClient
+            }
+            for backend in backends {
+                for a in 0..kinds.len() {
+                    for b in a..kinds.len() {
+                        out.push(Scenario { init: init.into(), threads: vec![vec![kinds[a]], vec![kinds[b]]], backend, http, lock_points: false, constructor_thread: false });
+                    }
+                }
+            }
+        }
+    }
+    // two-request threads: real-time order inside a thread
+    let two: Vec<(Vec<RKind>, Vec<RKind>)> = vec![
+        (vec![RKind::AvNil], vec![RKind::AsOlder, RKind::GcNil]),
+        (vec![RKind::AvLatest], vec![RKind::GcLatest, RKind::GcLatest]),
+        (vec![RKind::AvLatest], vec![RKind::AsLatest, RKind::Gs]),
+        (vec![RKind::AsLatest], vec![RKind::Gs, RKind::Gs]),
+        (vec![RKind::AvLatest, RKind::GcLatest], vec![RKind::AvLatest, RKind::GcLatest]),
+        (vec![RKind::AvNil, RKind::GcNil], vec![RKind::AvNil, RKind::GcNil]),
+    ];
+    for init in ["unknown", "empty", "chain2+snapshot"] {
+        for (t1, t2) in &two {
+            for backend in backends {
+                for http in [false, true] {
+                    if init == "unknown" && !http {
+                        continue;
+                    }
+                    out.push(Scenario { init: init.into(), threads: vec![t1.clone(), t2.clone()], backend, http, lock_points: false, constructor_thread: false });
+                }
+            }
+        }
+    }
+    if !quick {
+        // every pairing again with scheduling points at every SQLite lock call
+        for init in ["unknown", "chain2+snapshot"] {
+            for backend in [Backend::SqlShared, Backend::SqlPerThread] {
+                for a in 0..kinds.len() {
+                    for b in a..kinds.len() {
+                        out.push(Scenario { init: init.into(), threads: vec![vec![kinds[a]], vec![kinds[b]]], backend, http: true, lock_points: true, constructor_thread: false });
+                    }
+                }
+            }
+        }
+        // triples
+        let tk = [RKind::AvLatest, RKind::AvNil, RKind::GcLatest, RKind::AsLatest, RKind::Gs];
+        for init in ["unknown", "chain2+snapshot"] {
+            for backend in backends {
+                for a in 0..tk.len() {
+                    for b in a..tk.len() {
+                        for c in b..tk.len() {
+                            out.push(Scenario { init: init.into(), threads: vec![vec![tk[a]], vec![tk[b]], vec![tk[c]]], backend, http: true, lock_points: false, constructor_thread: false });
+                        }
+                    }
+                }
+            }
+        }
+        // a new instance being constructed meanwhile
+        for a in [RKind::AvLatest, RKind::AsLatest, RKind::GcLatest] {
+            for b in [RKind::AvLatest, RKind::Gs] {
+                out.push(Scenario { init: "chain2+snapshot".into(), threads: vec![vec![a], vec![b]], backend: Backend::SqlPerThread, http: true, lock_points: true, constructor_thread: true });
+            }
+        }
+    }
+    out
+}
+
+/// Run scheduler scenarios and fold results into `rep`. `own_counts`: also fill the
+/// model-checking keys (states / transitions / traces) from these runs alone.
+fn run_sched(rep: &mut Report, prop: &str, scs: &[crate::esched::Scenario], bound: usize, max_exec: u64, own_counts: bool) {
+    let tasks: Vec<Value> = scs.iter().map(|s| json!({"scenario": s.to_json(), "bound": bound, "max_exec": max_exec})).collect();
+    let mut pool = crate::pool::Pool::spawn(threads(), "sched", &json!({"seed": seed()}));
+    let results = pool.map(&tasks);
+    drop(pool);
+    let mut by_pre = vec![0u64; bound + 1];
+    let mut executions = 0u64;
+    let mut capped = 0u64;
+    let mut distinct_outcomes = 0u64;
+    let mut multi_outcome_scenarios = 0u64;
+    let mut samples = vec![];
+    let mut blocked = 0u64;
+    let mut points = 0u64;
+    for (k, r) in results.iter().enumerate() {
+        match r {
+            Ok(res) => {
+                if let Some(e) = res["error"].as_str() {
+                    rep.machinery_errors.push(format!("{}: {e}", scs[k].key()));
+                    continue;
+                }
+                if let Some(e) = res["nondeterminism"].as_str() {
+                    rep.machinery_errors.push(format!("{}: {e}", scs[k].key()));
+                    continue;
+                }
+                executions += res["executions"].as_u64().unwrap_or(0);
+                blocked += res["blocked_events"].as_u64().unwrap_or(0);
+                points += res["max_choice_points"].as_u64().unwrap_or(0);
+                if res["capped"] == true {
+                    capped += 1;
+                }
+                for (i, n) in res["by_preemptions"].as_array().cloned().unwrap_or_default().iter().enumerate() {
+                    if i < by_pre.len() {
+                        by_pre[i] += n.as_u64().unwrap_or(0);
+                    }
+                }
+                let no = res["outcomes"].as_object().map(|o| o.len()).unwrap_or(0) as u64;
+                distinct_outcomes += no;
+                if no > 1 {
+                    multi_outcome_scenarios += 1;
+                }
+                if samples.len() < 6 && no > 1 {
+                    samples.push(json!({"scenario": scs[k].to_json(), "schedules_explored": res["executions"], "distinct_outcomes": res["outcomes"]}));
+                }
+                for f in res["violations"].as_array().cloned().unwrap_or_default() {
+                    rep.violations.push(Violation {
+                        property: prop.into(),
+                        signature: format!("esched|{}|{}", f["class"].as_str().unwrap_or(""), scs[k].key()),
+                        message: format!("[{}] {}\n schedule: {}", scs[k].key(), f["msg"].as_str().unwrap_or(""), f["events"]),
+                        replay: json!({"engine": "esched", "scenario": scs[k].to_json(), "choices": f["choices"], "events": f["events"]}),
+                    });
+                }
+            }
+            Err(e) => rep.machinery_errors.push(format!("sched worker ({}): {e}", scs[k].key())),
+        }
+    }
+    rep.cov("sched_scenarios", json!(scs.len()));
+    if own_counts {
+        rep.cov("states", json!(executions));
+        rep.cov("transitions", json!(points));
+        rep.cov("traces_validated_against_impl", json!(executions));
+        rep.cov("samples", json!(samples));
+        rep.cov("exhaustive", json!(capped == 0));
+    } else {
+        rep.add_count("traces_validated_against_impl", executions);
+        rep.cov("sched_samples", json!(samples));
+    }
+    rep.cov("schedules_explored", json!(executions));
+    rep.cov("schedules_by_preemptions", json!(by_pre));
+    rep.cov("preemption_bound", json!(bound));
+    rep.cov("sched_scenarios_capped", json!(capped));
+    rep.cov("sched_distinct_outcomes_total", json!(distinct_outcomes));
+    rep.cov("sched_scenarios_with_several_outcomes", json!(multi_outcome_scenarios));
+    rep.cov("blocked_events_observed", json!(blocked));
+}
+
+/// The snapshot pairings of C11 under the scheduler.
+pub fn c11_scenarios(tier: &str) -> Vec<crate::esched::Scenario> {
+    use crate::esched::{Backend, RKind, Scenario};
+    let quick = tier != "thorough";
+    let mut out = vec![];
+    let pairs: Vec<(Vec<RKind>, Vec<RKind>)> = vec![
+        (vec![RKind::AsLatest], vec![RKind::Gs]),
+        (vec![RKind::AsLatest], vec![RKind::AvLatest]),
+        (vec![RKind::AsLatest], vec![RKind::AsOlder]),
+        (vec![RKind::AsLatest], vec![RKind::AsLatest]),
+        (vec![RKind::AsOlder], vec![RKind::Gs]),
+        (vec![RKind::AsLatest, RKind::Gs], vec![RKind::AvLatest, RKind::Gs]),
+        (vec![RKind::AsLatest, RKind::Gs], vec![RKind::AsOlder, RKind::Gs]),
+    ];
+    for (a, b) in &pairs {
+        for backend in [Backend::Mem, Backend::SqlShared, Backend::SqlPerThread] {
+            for http in [false, true] {
+                out.push(Scenario { init: "chain2+snapshot".into(), threads: vec![a.clone(), b.clone()], backend, http, lock_points: !quick && backend != Backend::Mem, constructor_thread: false });
+            }
+        }
+    }
+    if !quick {
+        for backend in [Backend::Mem, Backend::SqlShared] {
+            out.push(Scenario { init: "chain2+snapshot".into(), threads: vec![vec![RKind::AsLatest], vec![RKind::Gs], vec![RKind::AvLatest]], backend, http: true, lock_points: false, constructor_thread: false });
+            out.push(Scenario { init: "chain2+snapshot".into(), threads: vec![vec![RKind::AsLatest], vec![RKind::AsOlder], vec![RKind::Gs]], backend, http: true, lock_points: false, constructor_thread: false });
+        }
+    }
+    out
+}
+
+fn c03_check(tier: &str, replay: Option<&str>) -> i32 {
+    let quick = tier != "thorough";
+    let mut rep = Report::new("C03", tier, "model_checking");
+    if let Some(file) = replay {
+        let s = std::fs::read_to_string(file).unwrap_or_default();
+        let v: Value = serde_json::from_str(&s).unwrap_or(Value::Null);
+        let mut pool = crate::pool::Pool::spawn(1, "sched", &json!({"seed": seed()}));
+        let r = pool.map(&[json!({"scenario": v["replay"]["scenario"], "replay": v["replay"]["choices"]})]);
+        if let Some(Ok(res)) = r.first() {
+            if res["deterministic"] == false {
+                eprintln!("MACHINERY-ERROR: the recorded schedule does not replay deterministically");
+                return 2;
+            }
+            if res["ok"] == false {
+                println!("VIOLATION property=C03 replay={file}");
+                println!("  {}", res["msg"].as_str().unwrap_or(""));
+                println!("  schedule: {}", res["events"]);
+                return 1;
+            }
+        }
+        println!("replay of {file}: no violation of C03");
+        return 0;
+    }
+    let scs = c03_scenarios(tier);
+    let bound = if quick { 2 } else { 3 };
+    let max_exec = if quick { 1500 } else { 60000 };
+    run_sched(&mut rep, "C03", &scs, bound, max_exec, true);
+    rep.cov("explanation", json!("states = complete schedules executed on real threads through the real code (each judged by brute-force linearizability against the reference model, responses and final state); transitions = sum over scenarios of the longest choice sequence"));
+    rep.assume("scheduling points: before Storage::txn, before every StorageTxn method, before the transaction is dropped, at request start; thorough adds every SQLite lock call; blocking is observed through SQLite's busy handler (xSleep) and the in-memory mutex's try_lock");
+    rep.assume("server instances are separate objects in one process; SQLite's cross-process fcntl locking is assumed to honour the same contract as its in-process locking");
+    rep.assume("schedules beyond the preemption bound and more than 3 threads are not explored");
     rep.finish()
 }
